@@ -19,6 +19,15 @@ read the wrong number of bits:
   C10.accessor  the views returned by ValueRef::as_left / as_right / as_product sit where the padded layout puts the
                 component: offset + 1 + max(wl, wr) - wl (resp. - wr) behind a first bit of 0 (resp. 1), and
                 (offset, offset + wl) for a product — compared as linear forms, so any equivalent spelling passes
+  C10.lifo      the work-stack decoders/pruner process the LEFT component of a product first (its task is pushed last) and so
+                pop the RIGHT result first: Value::product(l, r) takes the later pop as l and the earlier pop as r
+  C10.padside   Value::left / Value::right put the padding between the tag bit and the payload, where the accessors
+                (C10.accessor) look for it: in their call of the concatenation helper product(a, wa, b, wb) the absent
+                (None) part of width max(wl, wr) - w comes first and the payload second
+  C10.rebrand   a Value / ValueRef built around the byte buffer of an existing value (`inner: x.inner`) takes its type from
+                that same value (`x.ty`, or a component of it obtained through as_sum / as_product): re-labelling a buffer
+                with a type that comes from anywhere else (e.g. the pruner's *target* type when only the widths agree)
+                makes accessors and equality read bits under a layout they were not written in
   C10.fastpath  Value::from_compact_bits hands a type to the padded decoder only on a path where has_padding() of that
                 very type was tested and was false; Final values are built only by unit/sum/product
                 (so the flag of every type is one of the evaluated expressions)
@@ -76,7 +85,13 @@ def run(ctx, rep):
     rep.rule("C10.accessor", "as_left/as_right/as_product position their views by the padded layout formulas (linear normal form)")
     rep.rule("C10.padflag", "has_padding is implied by the presence of padding, for every combination of child flags and width orderings")
     rep.rule("C10.fastpath", "padded fast path of the compact decoder only under a false has_padding() of the same type; Final built only by unit/sum/product")
+    rep.rule("C10.rebrand", "a value literal that reuses the buffer of a value x takes its type from x.ty (or a component of it)")
+    rep.rule("C10.lifo", "product rebuild: left sub-task pushed last (processed first), right result popped first")
+    rep.rule("C10.padside", "Value::left/right concatenate (padding, payload) in that order")
     sumtype(F, rep)
+    lifo(F, rep)
+    padside(F, rep)
+    rebrand(F, rep)
     typedirected(F, rep)
     accessors(F, rep)
     padflag(F, rep)
@@ -403,6 +418,181 @@ def padflag(F, rep):
     rep.floor("C10.padflag", rep.instances("C10.padflag"), 25)
 
 
+def _pop_site(t):
+    """the single `pop` call site a term derives from, or None"""
+    sites = set()
+    from facts import calls_in
+    for c in calls_in(t):
+        if c[2] == "pop" and len(c) > 6 and isinstance(c[6], tuple) and c[6][0] == "site":
+            sites.add(c[6][1])
+    return next(iter(sites)) if len(sites) == 1 else None
+
+
+def lifo(F, rep):
+    n = 0
+    for f0 in sorted(F.fns.values(), key=lambda x: x.path):
+        if not f0.path.startswith("simplicity::value::") or f0.kind == "Closure":
+            continue
+        if not any(cs.callee == VALUE + "product" for cs in f0.calls()):
+            continue
+        f = F.inlined(f0, ("product", "left", "right", "pop", "push", "as_product", "as_left", "as_right", "bound"))
+        T = Terms(f)
+        T.site_names = {"pop"}
+        for cs in f.calls():
+            if cs.callee != VALUE + "product":
+                continue
+            pl, pr = _pop_site(T.operand(cs.args[0])), _pop_site(T.operand(cs.args[1]))
+            if pl is None or pr is None:
+                continue
+            n += 1
+            key = "%s: Value::product(l, r) from the result stack" % f0.name
+            if pl == pr:
+                rep.violation("C10.lifo", f0.name + ":pop", "%s: both arguments of Value::product come from the same pop" % f0.path, cs.where())
+            elif f.dominates(pr, pl):
+                rep.ok("C10.lifo", key, "r is popped first, l second")
+            else:
+                rep.violation("C10.lifo", f0.name + ":pop", "%s rebuilds a product as Value::product(first pop, second pop): the right component was "
+                              "pushed last, so the first pop is the RIGHT component — the halves are exchanged" % f0.path, cs.where())
+        # sub-task order: the task carrying Product.1 is pushed before the task carrying Product.0
+        pushes = {}
+        for cs in f.calls():
+            if cs.name != "push" or len(cs.args) < 2:
+                continue
+            t = T.operand(cs.args[1])
+            if not (isinstance(t, tuple) and t and t[0] == "adt"):
+                continue
+            for o in t[4]:
+                lp = last_proj(o)
+                if lp and lp[0] == "Product":
+                    pushes.setdefault(expr.canon(lp[2]), {})[lp[1]] = cs
+        for subj, d in sorted(pushes.items()):
+            if 0 in d and 1 in d:
+                n += 1
+                key = "%s: sub-tasks of a product" % f0.name
+                if f.dominates(d[1].bb, d[0].bb) and d[1].bb != d[0].bb:
+                    rep.ok("C10.lifo", key, "task for component 1 pushed first, component 0 last (processed first)")
+                else:
+                    rep.violation("C10.lifo", f0.name + ":push", "%s pushes the task of the left component before that of the right one: the right "
+                                  "component is then processed (and its bits consumed) first" % f0.path, d[0].where())
+    rep.count("product_rebuild_sites", n)
+    rep.floor("C10.lifo", n, 4)
+
+
+def padside(F, rep):
+    n = 0
+    for nm in ("left", "right"):
+        f0 = F.fn(VALUE + nm)
+        if f0 is None:
+            rep.anchor("C10.padside", "Value::" + nm)
+            continue
+        f = F.inlined(f0, ("product", "right_shift_1", "bit_width"))
+        T = Terms(f)
+        cat = [cs for cs in f.calls() if cs.callee == "simplicity::value::product" and len(cs.args) == 4]
+        if len(cat) != 1:
+            rep.note("Value::%s does not build its buffer with one call of the concatenation helper product(a, wa, b, wb): layout not decided" % nm)
+            continue
+        a, b = T.operand(cat[0].args[0]), T.operand(cat[0].args[2])
+
+        def absent(t):
+            return isinstance(t, tuple) and t and t[0] == "adt" and t[2] == "None"
+
+        def payload(t):
+            return isinstance(t, tuple) and t and t[0] == "adt" and t[2] == "Some" and any(x[0] == "parampath" and x[3][-1:] == ("inner",) for x in leaves(t))
+        n += 1
+        if absent(a) and payload(b):
+            rep.ok("C10.padside", "Value::%s: product(padding, payload)" % nm, None)
+        elif payload(a) and absent(b):
+            rep.violation("C10.padside", "Value::%s:order" % nm, "Value::%s concatenates (payload, padding): the payload then sits directly behind the tag bit, "
+                          "but as_%s looks for it behind the padding, at offset 1 + max(wl, wr) - w" % (nm, nm), cat[0].where())
+        else:
+            rep.note("Value::%s: arguments of product() not recognised as (absent, payload): layout not decided" % nm)
+            n -= 1
+    rep.floor("C10.padside", n, 2)
+
+
+VALUE_ADTS = ("simplicity::value::Value", "simplicity::value::ValueRef")
+
+
+def _peel(t):
+    while isinstance(t, tuple) and t and t[0] in ("ref", "deref") and len(t) >= 2:
+        t = t[1]
+    return t
+
+
+def _derived_only(t, allowed, hit):
+    """every data leaf of t lies inside the sub-term `allowed`; constants and argument-less calls are neutral"""
+    if t == allowed:
+        hit.append(1)
+        return True
+    if not isinstance(t, tuple) or not t:
+        return True
+    k = t[0]
+    if k in ("int", "str", "zst", "bytes", "constitem", "fnitem"):
+        return True
+    if k in ("param", "loop", "deep", "unknown", "undef", "tls", "constunk", "closure", "phi"):
+        return False
+    if k == "call":
+        return all(_derived_only(a, allowed, hit) for a in t[3])
+    ok = True
+    for x in t[1:]:
+        if isinstance(x, tuple):
+            if x and isinstance(x[0], tuple):
+                ok = all([_derived_only(y, allowed, hit) for y in x]) and ok
+            else:
+                ok = _derived_only(x, allowed, hit) and ok
+    return ok
+
+
+def _brief(t):
+    c = expr.canon(t)
+    c = re.sub(r"pop\((?:[^()]|\([^()]*\)|\((?:[^()]|\([^()]*\))*\))*\)@Some\.0", "<popped task>", c)
+    return c if len(c) <= 70 else c[:33] + "…" + c[-33:]
+
+
+def rebrand(F, rep):
+    n = 0
+    views = []
+    lowered = set()
+    for f0 in sorted(F.fns.values(), key=lambda x: x.path):
+        if not f0.path.startswith("simplicity::value::") or f0.kind == "Closure":
+            continue
+        f = F.inlined(f0, ("as_sum", "as_product"))
+        lowered |= set(getattr(f, "lowered_closures", ()))
+        views.append(f)
+    for f0 in sorted(F.fns.values(), key=lambda x: x.path):
+        if f0.path.startswith("simplicity::") and (f0.kind == "Closure" or not f0.path.startswith("simplicity::value::")) and f0.path not in lowered:
+            views.append(f0)
+    for f in views:
+        T = None
+        k_in_fn = 0
+        for b in f.rpo():
+            for st in f.blocks[b]["s"]:
+                if not (st[0] == "=" and st[2].get("k") == "agg" and st[2].get("agg") == "adt" and st[2].get("adt") in VALUE_ADTS):
+                    continue
+                T = T or Terms(f)
+                d = dict(zip(st[2].get("fields") or [], [T.operand(o) for o in st[2]["ops"]]))
+                if "inner" not in d or "ty" not in d:
+                    continue
+                inner = _peel(d["inner"])
+                if not (isinstance(inner, tuple) and inner and inner[0] == "field" and inner[2] == "inner"):
+                    continue   # a freshly built buffer: its layout is the constructor's business (bit arithmetic, not decided)
+                k_in_fn += 1
+                n += 1
+                base = inner[1]
+                allowed = ("field", base, "ty")
+                hit = []
+                key = "%s#%d" % (fm.short(f.path), k_in_fn)
+                if _derived_only(d["ty"], allowed, hit) and hit:
+                    rep.ok("C10.rebrand", "%s: buffer of %s with type %s" % (key, _brief(base), _brief(d["ty"])), None)
+                else:
+                    rep.violation("C10.rebrand", "%s:%s" % (fm.short(f.path), _brief(d["ty"])),
+                                  "%s builds a %s around the buffer of `%s` but labels it with the type `%s`, which is not derived from `%s.ty`"
+                                  % (f.path, st[2]["adt"].rsplit("::", 1)[-1], _brief(base), _brief(d["ty"]), _brief(base)),
+                                  "%s:%s" % (f.file, st[3] if len(st) > 3 else f.line))
+    rep.count("buffer_reusing_value_literals", n)
+    rep.floor("C10.rebrand", n, 7)
+
+
 def fastpath(F, rep):
     # Final aggregates only in unit/sum/product (and the derived Clone)
     allowed = {FINAL + "::unit", FINAL + "::sum", FINAL + "::product"}
@@ -616,7 +806,7 @@ def accessors(F, rep):
     def env_for(kind):
         def env(t):
             s = expr.canon(t)
-            m = re.search(r"as_%s\(self\.ty\)@Some\.0\.(\d)$" % kind, s)
+            m = re.search(r"as_%s\(self\.ty\)(?:@Some\.0)?\.(\d)$" % kind, s)
             if m:
                 return "l" if m.group(1) == "0" else "r"
             if s == "self.ty" and kind == "sum":
@@ -645,7 +835,7 @@ def accessors(F, rep):
                     fields = s[2]["fields"]
                     off = T.operand(s[2]["ops"][fields.index("bit_offset")])
                     ty = expr.canon(T.operand(s[2]["ops"][fields.index("ty")]))
-                    m = re.search(r"as_%s\(self\.ty\)@Some\.0\.(\d)$" % kind, ty)
+                    m = re.search(r"as_%s\(self\.ty\)(?:@Some\.0)?\.(\d)$" % kind, ty)
                     got.append((lin(off, env), m.group(1) if m else "?" + ty[:40], b))
         if len(got) != len(want):
             rep.violation("C10.accessor", nm + ":views", "ValueRef::%s builds %d views, expected %d" % (nm, len(got), len(want)), f.where())
